@@ -466,6 +466,7 @@ def exec (m : M) (cmd : String) : P (M × List String) := do
     let nSwap ← pNat                 -- pt: n_iter_swap; ga: offspring
     let mrate ← pRat                 -- es / ga: mutation_rate
     let eps ← pRat                   -- de / ga: the literal 0.3 of `_constraint_loop`
+    let nPar ← pNat                  -- ga: n_parents
     let inits ← pList (pList (pN m.sp.dims.length pInt))
     let members : List Local := inits.map (fun l => { initL := l })
     let hc : LocalCfg := { kind := .hillClimbing, nNeighbours := nNb, randRestP := rrp, geo := m.sp.geo }
@@ -475,7 +476,7 @@ def exec (m : M) (cmd : String) : P (M × List String) := do
       | "spiral" => pure (PopCfg.spiral hc)
       | "es" => pure (PopCfg.es { member := hc, mutationRate := mrate })
       | "de" => pure (PopCfg.de { member := hc, epsMod := eps })
-      | "ga" => pure (PopCfg.ga { member := hc, mutationRate := mrate, nOffspring := nSwap, epsMod := eps })
+      | "ga" => pure (PopCfg.ga { member := hc, mutationRate := mrate, nOffspring := nSwap, epsMod := eps, nParents := nPar })
       | k => throw s!"population kind? {k}"
     pure ({ m with d := { nInits := nInits, bst := { pt := some (cfg, { pop := { members := members } }) } }, call := none, warm := [], steps := #[], byCall := #[], pending := #[] }, ["ok"])
   | "pstate" =>
